@@ -127,6 +127,8 @@ class Skin(Controller):
             raise DaeIncompleteError("Could not find joint matrix source for skin")
         joint_names = [j for j in sourcebyid[joint_source]]
         joint_matrices = sourcebyid[joint_matrix_source].data
+        if joint_matrices.size % 16 != 0:
+            raise DaeMalformedError("Skin inverse bind matrix source does not hold 4x4 matrices")
         joint_matrices.shape = (-1, 4, 4)
         if len(joint_names) != len(joint_matrices):
             raise DaeMalformedError("Skin joint and matrix inputs must be same length")
